@@ -91,6 +91,8 @@ def gen_history(rng, max_commits=25):
             msg = "BUG-71 change %d" % cid
         elif r < 0.45:
             msg = "misc %d\n\nrelated to BUG-7 fix" % cid
+        elif r < 0.47:
+            msg = ""            # (a commit made with --allow-empty-message: it holds the empty search text)
         else:
             msg = "misc %d" % cid
         commits[cid] = mg.Commit("r", cid, [commits[p] for p in ps], msg, base + cid * step, files)
